@@ -1104,12 +1104,12 @@ impl ConfigState {
             .fingerprint()
             .map_err(StateError::AddCertificate)?;
 
-        let entry = self.certificates.entry(add.address.into()).or_default();
-
         let mut add = add.clone();
         add.certificate
             .apply_overriding_names()
             .map_err(StateError::AddCertificate)?;
+
+        let entry = self.certificates.entry(add.address.into()).or_default();
 
         if entry.contains_key(&fingerprint) {
             info!(
@@ -1163,6 +1163,12 @@ impl ConfigState {
                 .map_err(|decode_error| StateError::RemoveCertificate(decode_error.to_string()))?,
         );
 
+        let new_fingerprint = Fingerprint(
+            calculate_fingerprint(replace.new_certificate.certificate.as_bytes()).map_err(
+                |fingerprint_err| StateError::ReplaceCertificate(fingerprint_err.to_string()),
+            )?,
+        );
+
         self.certificates
             .get_mut(&replace_address)
             .ok_or(StateError::NotFound {
@@ -1170,12 +1176,6 @@ impl ConfigState {
                 id: replace.address.to_string(),
             })?
             .remove(&old_fingerprint);
-
-        let new_fingerprint = Fingerprint(
-            calculate_fingerprint(replace.new_certificate.certificate.as_bytes()).map_err(
-                |fingerprint_err| StateError::ReplaceCertificate(fingerprint_err.to_string()),
-            )?,
-        );
 
         self.certificates
             .get_mut(&replace_address)
